@@ -186,35 +186,37 @@ theorem encXattrs_length_ge (xs : List (Bytes × Bytes)) : xs.length ≤ (encXat
 
 /-- reading an element or taking it from `last` is the same thing -/
 theorem archLoop_peek (fuel : Nat) (st s' : St) (dir : Bytes) (skip : Nat) (p : Pending) (e : Elem)
+    (nd : Nat) (rnd : Bool)
     (hd : decNext st = .ok (some e, s')) :
-    archLoop (fuel + 1) ⟨st, dir, none, skip⟩ p = archLoop (fuel + 1) ⟨s', dir, some e, skip⟩ p := by
+    archLoop (fuel + 1) ⟨st, dir, none, skip, nd, rnd⟩ p
+      = archLoop (fuel + 1) ⟨s', dir, some e, skip, nd, rnd⟩ p := by
   rw [archLoop, archLoop]
   simp [hd]
 
 theorem archLoop_xattr (fuel : Nat) (st s' : St) (dir : Bytes) (skip : Nat)
     (e : UInt64 × UInt64 × UInt64 × UInt64) (xs : List (Bytes × Bytes)) (nm : Bytes)
-    (sl : Option Bytes) (dv : Option (UInt64 × UInt64)) (sz : UInt64) (nv k v : Bytes)
+    (sl : Option Bytes) (dv : Option (UInt64 × UInt64)) (sz : UInt64) (nv k v : Bytes) (nd : Nat) (rnd : Bool)
     (hd : decNext st = .ok (some (.xattr sz nv), s')) (hs : splitNul nv = some (k, v)) :
-    archLoop (fuel + 1) ⟨st, dir, none, skip⟩ ⟨some e, xs, nm, sl, dv⟩
-      = archLoop fuel ⟨s', dir, none, skip⟩ ⟨some e, mapSet xs k v, nm, sl, dv⟩ := by
+    archLoop (fuel + 1) ⟨st, dir, none, skip, nd, rnd⟩ ⟨some e, xs, nm, sl, dv⟩
+      = archLoop fuel ⟨s', dir, none, skip, nd, rnd⟩ ⟨some e, mapSet xs k v, nm, sl, dv⟩ := by
   rw [archLoop]
   simp [hd, hs]
 
 theorem archLoop_symlink (fuel : Nat) (st s' : St) (dir : Bytes) (skip : Nat)
     (e : UInt64 × UInt64 × UInt64 × UInt64) (xs : List (Bytes × Bytes)) (nm : Bytes)
-    (sl : Option Bytes) (dv : Option (UInt64 × UInt64)) (sz : UInt64) (t : Bytes)
+    (sl : Option Bytes) (dv : Option (UInt64 × UInt64)) (sz : UInt64) (t : Bytes) (nd : Nat) (rnd : Bool)
     (hd : decNext st = .ok (some (.symlink sz t), s')) :
-    archLoop (fuel + 1) ⟨st, dir, none, skip⟩ ⟨some e, xs, nm, sl, dv⟩
-      = archLoop fuel ⟨s', dir, none, skip⟩ ⟨some e, xs, nm, some t, dv⟩ := by
+    archLoop (fuel + 1) ⟨st, dir, none, skip, nd, rnd⟩ ⟨some e, xs, nm, sl, dv⟩
+      = archLoop fuel ⟨s', dir, none, skip, nd, rnd⟩ ⟨some e, xs, nm, some t, dv⟩ := by
   rw [archLoop]
   simp [hd]
 
 theorem archLoop_device (fuel : Nat) (st s' : St) (dir : Bytes) (skip : Nat)
     (e : UInt64 × UInt64 × UInt64 × UInt64) (xs : List (Bytes × Bytes)) (nm : Bytes)
-    (sl : Option Bytes) (dv : Option (UInt64 × UInt64)) (sz ma mi : UInt64)
+    (sl : Option Bytes) (dv : Option (UInt64 × UInt64)) (sz ma mi : UInt64) (nd : Nat) (rnd : Bool)
     (hd : decNext st = .ok (some (.device sz ma mi), s')) :
-    archLoop (fuel + 1) ⟨st, dir, none, skip⟩ ⟨some e, xs, nm, sl, dv⟩
-      = archLoop fuel ⟨s', dir, none, skip⟩ ⟨some e, xs, nm, sl, some (ma, mi)⟩ := by
+    archLoop (fuel + 1) ⟨st, dir, none, skip, nd, rnd⟩ ⟨some e, xs, nm, sl, dv⟩
+      = archLoop fuel ⟨s', dir, none, skip, nd, rnd⟩ ⟨some e, xs, nm, sl, some (ma, mi)⟩ := by
   rw [archLoop]
   simp [hd]
 
@@ -224,39 +226,43 @@ def IsTerm (e : Elem) : Prop := (∃ sz n, e = .filename sz n) ∨ (∃ sz items
 /-- a terminator completes a pending directory entry ... -/
 theorem archLoop_term_dir (fuel : Nat) (st s' : St) (dir : Bytes) (skip : Nat)
     (e : UInt64 × UInt64 × UInt64 × UInt64) (xs : List (Bytes × Bytes)) (nm : Bytes) (t : Elem)
+    (nd : Nat) (hadm : nd = 0 ∨ nm ≠ [])
     (ht : IsTerm t) (hd : decNext st = .ok (some t, s')) :
-    archLoop (fuel + 1) ⟨st, dir, none, skip⟩ ⟨some e, xs, nm, none, none⟩
+    archLoop (fuel + 1) ⟨st, dir, none, skip, nd, false⟩ ⟨some e, xs, nm, none, none⟩
       = .ok (some (.dir (joinPath dir nm) (Pending.meta ⟨some e, xs, nm, none, none⟩)),
-          ⟨s', joinPath dir nm, some t, skip⟩) := by
+          ⟨s', joinPath dir nm, some t, skip, nd + 1, false⟩) := by
   rw [archLoop]
-  rcases ht with ⟨sz, n, rfl⟩ | ⟨sz, items, rfl⟩ <;> simp [hd]
+  rcases ht with ⟨sz, n, rfl⟩ | ⟨sz, items, rfl⟩ <;> rcases hadm with h | h <;>
+    simp [hd, ArchDec.admit, h]
 
 /-- ... a pending symlink ... -/
 theorem archLoop_term_symlink (fuel : Nat) (st s' : St) (dir : Bytes) (skip : Nat)
     (e : UInt64 × UInt64 × UInt64 × UInt64) (xs : List (Bytes × Bytes)) (nm tg : Bytes) (t : Elem)
+    (nd : Nat) (hnm : nm ≠ [])
     (ht : IsTerm t) (hd : decNext st = .ok (some t, s')) :
-    archLoop (fuel + 1) ⟨st, dir, none, skip⟩ ⟨some e, xs, nm, some tg, none⟩
+    archLoop (fuel + 1) ⟨st, dir, none, skip, nd, false⟩ ⟨some e, xs, nm, some tg, none⟩
       = .ok (some (.symlink (joinPath dir nm) (Pending.meta ⟨some e, xs, nm, some tg, none⟩) tg),
-          ⟨s', dir, some t, skip⟩) := by
+          ⟨s', dir, some t, skip, nd + 1, false⟩) := by
   rw [archLoop]
-  rcases ht with ⟨sz, n, rfl⟩ | ⟨sz, items, rfl⟩ <;> simp [hd]
+  rcases ht with ⟨sz, n, rfl⟩ | ⟨sz, items, rfl⟩ <;> simp [hd, ArchDec.admit, hnm]
 
 /-- ... and a pending device node -/
 theorem archLoop_term_device (fuel : Nat) (st s' : St) (dir : Bytes) (skip : Nat)
     (e : UInt64 × UInt64 × UInt64 × UInt64) (xs : List (Bytes × Bytes)) (nm : Bytes)
     (sl : Option Bytes) (ma mi : UInt64) (t : Elem)
+    (nd : Nat) (hnm : nm ≠ [])
     (ht : IsTerm t) (hd : decNext st = .ok (some t, s')) :
-    archLoop (fuel + 1) ⟨st, dir, none, skip⟩ ⟨some e, xs, nm, sl, some (ma, mi)⟩
+    archLoop (fuel + 1) ⟨st, dir, none, skip, nd, false⟩ ⟨some e, xs, nm, sl, some (ma, mi)⟩
       = .ok (some (.device (joinPath dir nm) (Pending.meta ⟨some e, xs, nm, sl, some (ma, mi)⟩) ma mi),
-          ⟨s', dir, some t, skip⟩) := by
+          ⟨s', dir, some t, skip, nd + 1, false⟩) := by
   rw [archLoop]
-  rcases ht with ⟨sz, n, rfl⟩ | ⟨sz, items, rfl⟩ <;> cases sl <;> simp [hd]
+  rcases ht with ⟨sz, n, rfl⟩ | ⟨sz, items, rfl⟩ <;> cases sl <;> simp [hd, ArchDec.admit, hnm]
 
 theorem archLoop_last_goodbye (fuel : Nat) (st : St) (dir : Bytes) (skip : Nat)
     (xs : List (Bytes × Bytes)) (nm : Bytes) (sl : Option Bytes) (dv : Option (UInt64 × UInt64))
-    (sz : UInt64) (items : List GoodbyeItem) :
-    archLoop (fuel + 1) ⟨st, dir, some (.goodbye sz items), skip⟩ ⟨none, xs, nm, sl, dv⟩
-      = archLoop fuel ⟨st, dirOf dir, none, skip⟩ ⟨none, xs, nm, sl, dv⟩ := by
+    (sz : UInt64) (items : List GoodbyeItem) (nd : Nat) (rnd : Bool) :
+    archLoop (fuel + 1) ⟨st, dir, some (.goodbye sz items), skip, nd, rnd⟩ ⟨none, xs, nm, sl, dv⟩
+      = archLoop fuel ⟨st, dirOf dir, none, skip, nd, rnd⟩ ⟨none, xs, nm, sl, dv⟩ := by
   rw [archLoop]
   simp
 
@@ -265,9 +271,11 @@ theorem archLoop_xattrs (xs : List (Bytes × Bytes))
     (hx : ∀ kv ∈ xs, (0 : UInt8) ∉ kv.1 ∧ kv.1.length + kv.2.length + 18 < 2^64)
     (fuel : Nat) (r : Bytes) (dir : Bytes) (skip : Nat)
     (e : UInt64 × UInt64 × UInt64 × UInt64) (nm : Bytes)
-    (sl : Option Bytes) (dv : Option (UInt64 × UInt64)) (a : Nat) (acc : List (Bytes × Bytes)) :
-    ∃ a', archLoop (fuel + xs.length) ⟨⟨encXattrs xs ++ r, a⟩, dir, none, skip⟩ ⟨some e, acc, nm, sl, dv⟩
-      = archLoop fuel ⟨⟨r, a'⟩, dir, none, skip⟩ ⟨some e, xattrFold acc xs, nm, sl, dv⟩ := by
+    (sl : Option Bytes) (dv : Option (UInt64 × UInt64)) (a : Nat) (acc : List (Bytes × Bytes))
+    (nd : Nat) (rnd : Bool) :
+    ∃ a', archLoop (fuel + xs.length) ⟨⟨encXattrs xs ++ r, a⟩, dir, none, skip, nd, rnd⟩
+        ⟨some e, acc, nm, sl, dv⟩
+      = archLoop fuel ⟨⟨r, a'⟩, dir, none, skip, nd, rnd⟩ ⟨some e, xattrFold acc xs, nm, sl, dv⟩ := by
   induction xs generalizing a acc with
   | nil => exact ⟨a, by simp [encXattrs, xattrFold]⟩
   | cons kv xs ih =>
@@ -292,10 +300,11 @@ theorem leafBody_length_ge (f : FileRec) : f.xattrs.length + 64 ≤ (leafBody f)
     of `R`, a symlink or device node leaves it behind `t` with `t` as look-ahead -/
 theorem archLoop_leaf (root f : FileRec) (hf : LeafOK root f) (sz : UInt64) (t : Elem) (ht : IsTerm t)
     (R R' : Bytes) (hdt : ∀ a, ∃ a', decNext ⟨R, a⟩ = .ok (some t, ⟨R', a'⟩))
-    (a F : Nat) (hF : f.xattrs.length + 4 ≤ F) :
-    ∃ s', archLoop F ⟨⟨leafBody f ++ R, a⟩, [dot], some (.filename sz f.base), 0⟩
+    (a F : Nat) (hF : f.xattrs.length + 4 ≤ F) (nd : Nat) :
+    ∃ s', archLoop F ⟨⟨leafBody f ++ R, a⟩, [dot], some (.filename sz f.base), 0, nd, false⟩
               ⟨none, [], [], none, none⟩ = .ok (some (leafNode f), s') ∧
-      ((∃ a', s' = ⟨⟨R, a'⟩, [dot], none, 0⟩) ∨ (∃ a', s' = ⟨⟨R', a'⟩, [dot], some t, 0⟩)) := by
+      ((∃ a', s' = ⟨⟨R, a'⟩, [dot], none, 0, nd + 1, false⟩) ∨
+       (∃ a', s' = ⟨⟨R', a'⟩, [dot], some t, 0, nd + 1, false⟩)) := by
   obtain ⟨hkind, _, hname, _, hreg, hsym, hxa, hnd⟩ := hf
   have hne := validName_ne_nil hname
   have hfold : xattrFold [] f.xattrs = f.xattrs := by
@@ -312,7 +321,7 @@ theorem archLoop_leaf (root f : FileRec) (hf : LeafOK root f) (sz : UInt64) (t :
       simp only [leafBody, leafTail, hk, entryElem, List.append_assoc]
     obtain ⟨a', hx⟩ := archLoop_xattrs f.xattrs hxa (k + 1)
       (encElem (.payload (16 + f.size)) ++ (f.data ++ R)) [dot] 0
-      (f.mode, f.uid, f.gid, f.mtime) f.base none none a []
+      (f.mode, f.uid, f.gid, f.mtime) f.base none none a [] nd false
     have hd2 := decNext_payload_enc (16 + f.size) (f.data ++ R) a'
       (by rw [hsz, h1]; omega) (by rw [hsz, h1]; omega)
     have hp : takePayload ((16 + f.size).toNat - 16) ⟨f.data ++ R, a'⟩ = .ok (f.data, ⟨R, a'⟩) := by
@@ -320,7 +329,7 @@ theorem archLoop_leaf (root f : FileRec) (hf : LeafOK root f) (sz : UInt64) (t :
       exact takePayload_append _ _ _
     refine ⟨_, ?_, Or.inl ⟨a', rfl⟩⟩
     rw [hbody, archLoop_last_filename (hn := hname),
-      archLoop_entry (hd := decNext_entry_enc ..), hx, archLoop_payload (hd := hd2) (ht := hp)]
+      archLoop_entry (hd := decNext_entry_enc ..), hx, archLoop_payload (hnm := hne) (hd := hd2) (ht := hp)]
     simp [leafNode, hk, joinPath, Pending.meta, hne, hfold, hsz, h2]
   · -- symlink
     have hts := hsym hk
@@ -333,13 +342,13 @@ theorem archLoop_leaf (root f : FileRec) (hf : LeafOK root f) (sz : UInt64) (t :
       simp only [leafBody, leafTail, hk, entryElem, List.append_assoc]
     obtain ⟨a', hx⟩ := archLoop_xattrs f.xattrs hxa (k + 1 + 1)
       (encElem (.symlink (UInt64.ofNat (16 + f.target.length + 1)) f.target) ++ R) [dot] 0
-      (f.mode, f.uid, f.gid, f.mtime) f.base none none a []
+      (f.mode, f.uid, f.gid, f.mtime) f.base none none a [] nd false
     have hd2 := decNext_symlink_enc f.target R a' hts
     obtain ⟨a'', hd3⟩ := hdt (a' + f.target.length + 1)
     refine ⟨_, ?_, Or.inr ⟨a'', rfl⟩⟩
     rw [hbody, archLoop_last_filename (hn := hname),
       archLoop_entry (hd := decNext_entry_enc ..), hx, archLoop_symlink (hd := hd2),
-      archLoop_term_symlink (ht := ht) (hd := hd3)]
+      archLoop_term_symlink (hnm := hne) (ht := ht) (hd := hd3)]
     simp [leafNode, hk, joinPath, Pending.meta, hne, hfold]
   · -- device node
     obtain ⟨k, rfl⟩ : ∃ k, F = k + 1 + 1 + f.xattrs.length + 1 + 1 :=
@@ -350,13 +359,13 @@ theorem archLoop_leaf (root f : FileRec) (hf : LeafOK root f) (sz : UInt64) (t :
       simp only [leafBody, leafTail, hk, entryElem, List.append_assoc]
     obtain ⟨a', hx⟩ := archLoop_xattrs f.xattrs hxa (k + 1 + 1)
       (encElem (.device 32 f.major f.minor) ++ R) [dot] 0
-      (f.mode, f.uid, f.gid, f.mtime) f.base none none a []
+      (f.mode, f.uid, f.gid, f.mtime) f.base none none a [] nd false
     have hd2 := decNext_device_enc f.major f.minor R a'
     obtain ⟨a'', hd3⟩ := hdt a'
     refine ⟨_, ?_, Or.inr ⟨a'', rfl⟩⟩
     rw [hbody, archLoop_last_filename (hn := hname),
       archLoop_entry (hd := decNext_entry_enc ..), hx, archLoop_device (hd := hd2),
-      archLoop_term_device (ht := ht) (hd := hd3)]
+      archLoop_term_device (hnm := hne) (ht := ht) (hd := hd3)]
     simp [leafNode, hk, joinPath, Pending.meta, hne, hfold]
 
 /-! ### the decoder between two calls of `Next` -/
@@ -401,22 +410,26 @@ theorem decNext_head (root : FileRec) (cs : List FileRec) (items : List GoodbyeI
 /-- decoder states in the root directory in front of the children `cs`: either nothing has been
     read of them, or their first element has been read as look-ahead -/
 def Ready (cs : List FileRec) (items : List GoodbyeItem) (s : ArchDec) : Prop :=
-  (∃ a, s = ⟨⟨childrenBytes cs ++ encElem (goodbyeElem items), a⟩, [dot], none, 0⟩) ∨
-  (∃ a, s = ⟨⟨tailBytes cs items, a⟩, [dot], some (headElem cs items), 0⟩)
+  (∃ a nd, s = ⟨⟨childrenBytes cs ++ encElem (goodbyeElem items), a⟩, [dot], none, 0, nd, false⟩) ∨
+  (∃ a nd, s = ⟨⟨tailBytes cs items, a⟩, [dot], some (headElem cs items), 0, nd, false⟩)
 
 theorem next_leaf (root c : FileRec) (cs : List FileRec) (items : List GoodbyeItem)
     (hc : LeafOK root c) (hcs : ∀ f ∈ cs, LeafOK root f) (hit : TableOK items)
     (s : ArchDec) (hs : Ready (c :: cs) items s) :
     ∃ s', s.next = .ok (some (leafNode c), s') ∧ Ready cs items s' := by
   have hlen := leafBody_length_ge c
-  rcases hs with ⟨a, rfl⟩ | ⟨a, rfl⟩
+  rcases hs with ⟨a, nd, rfl⟩ | ⟨a, nd, rfl⟩
   · obtain ⟨a1, hd⟩ := decNext_head root (c :: cs) items
       (by intro f hf; rcases List.mem_cons.mp hf with rfl | h; exact hc; exact hcs f h) hit a
     obtain ⟨s', h, hr⟩ := archLoop_leaf root c hc (UInt64.ofNat (16 + c.base.length + 1))
       (headElem cs items) (headElem_isTerm cs items) _ (tailBytes cs items)
       (decNext_head root cs items hcs hit) a1
       ((childrenBytes (c :: cs) ++ encElem (goodbyeElem items)).length + 2)
-      (by simp only [childrenBytes, List.length_append]; omega)
+      (by simp only [childrenBytes, List.length_append]; omega) nd
+    have hr : Ready cs items s' := by
+      rcases hr with ⟨a', rfl⟩ | ⟨a', rfl⟩
+      · exact Or.inl ⟨a', _, rfl⟩
+      · exact Or.inr ⟨a', _, rfl⟩
     refine ⟨s', ?_, hr⟩
     unfold ArchDec.next
     show archLoop (_ + 1 + 1) _ ⟨none, [], [], none, none⟩ = _
@@ -426,17 +439,22 @@ theorem next_leaf (root c : FileRec) (cs : List FileRec) (items : List GoodbyeIt
       (headElem cs items) (headElem_isTerm cs items) _ (tailBytes cs items)
       (decNext_head root cs items hcs hit) a
       ((tailBytes (c :: cs) items).length + 2)
-      (by simp only [tailBytes, List.length_append]; omega)
+      (by simp only [tailBytes, List.length_append]; omega) nd
+    have hr : Ready cs items s' := by
+      rcases hr with ⟨a', rfl⟩ | ⟨a', rfl⟩
+      · exact Or.inl ⟨a', _, rfl⟩
+      · exact Or.inr ⟨a', _, rfl⟩
     exact ⟨s', h, hr⟩
 
 theorem next_end (items : List GoodbyeItem) (hit : TableOK items) (s : ArchDec)
     (hs : Ready [] items s) : ∃ s', s.next = .ok (none, s') := by
-  rcases hs with ⟨a, rfl⟩ | ⟨a, rfl⟩
+  rcases hs with ⟨a, nd, rfl⟩ | ⟨a, nd, rfl⟩
   · obtain ⟨⟨hne, htail⟩, hlen⟩ := hit
-    exact ⟨_, next_goodbye_end items a hne htail hlen⟩
-  · refine ⟨⟨⟨[], a⟩, dirOf [dot], none, 0⟩, ?_⟩
+    exact ⟨_, next_goodbye_end items a nd false hne htail hlen⟩
+  · refine ⟨⟨⟨[], a⟩, dirOf [dot], none, 0, nd, false⟩, ?_⟩
     unfold ArchDec.next
-    show archLoop (0 + 1 + 1) ⟨⟨[], a⟩, [dot], some (.goodbye _ items), 0⟩ ⟨none, [], [], none, none⟩ = _
+    show archLoop (0 + 1 + 1) ⟨⟨[], a⟩, [dot], some (.goodbye _ items), 0, nd, false⟩
+      ⟨none, [], [], none, none⟩ = _
     rw [archLoop_last_goodbye, archLoop_eof (hd := decNext_nil a)]
 
 theorem untarNodes_ready (root : FileRec) (items : List GoodbyeItem) (hit : TableOK items)
@@ -464,7 +482,7 @@ theorem untarNodes_ready (root : FileRec) (items : List GoodbyeItem) (hit : Tabl
 
 theorem next_flat_root (root : FileRec) (cs : List FileRec) (items : List GoodbyeItem)
     (hrx : XattrsOK root.xattrs) (hcs : ∀ f ∈ cs, LeafOK root f) (hit : TableOK items) :
-    ∃ s', ArchDec.next ⟨⟨flatArchive root cs items, 0⟩, [dot], none, 0⟩
+    ∃ s', ArchDec.next ⟨⟨flatArchive root cs items, 0⟩, [dot], none, 0, 0, false⟩
         = .ok (some (.dir [dot] ⟨root.uid, root.gid, root.mode, root.mtime, root.xattrs⟩), s') ∧
       Ready cs items s' := by
   obtain ⟨hxa, hnd⟩ := hrx
@@ -476,15 +494,15 @@ theorem next_flat_root (root : FileRec) (cs : List FileRec) (items : List Goodby
       simp only [flatArchive, List.length_append, (entryElem_size root).1]; omega⟩
   obtain ⟨a', hx⟩ := archLoop_xattrs root.xattrs hxa (k + 1)
     (childrenBytes cs ++ encElem (goodbyeElem items)) [dot] 0
-    (root.mode, root.uid, root.gid, root.mtime) [] none none 0 []
+    (root.mode, root.uid, root.gid, root.mtime) [] none none 0 [] 0 false
   obtain ⟨a'', hd⟩ := decNext_head root cs items hcs hit a'
-  refine ⟨_, ?_, Or.inr ⟨a'', rfl⟩⟩
+  refine ⟨_, ?_, Or.inr ⟨a'', 1, rfl⟩⟩
   unfold ArchDec.next
   show archLoop ((flatArchive root cs items).length + 2) _ ⟨none, [], [], none, none⟩ = _
   rw [hk]
   simp only [flatArchive, entryElem]
   rw [archLoop_entry (hd := decNext_entry_enc ..), hx,
-    archLoop_term_dir (ht := headElem_isTerm cs items) (hd := hd)]
+    archLoop_term_dir (hadm := .inl rfl) (ht := headElem_isTerm cs items) (hd := hd)]
   simp [joinPath, Pending.meta, hfold]
 
 theorem childrenBytes_length_ge (cs : List FileRec) : cs.length ≤ (childrenBytes cs).length := by
@@ -506,7 +524,7 @@ theorem untar_flatArchive (root : FileRec) (cs : List FileRec) (items : List Goo
       simp only [flatArchive, List.length_append]; omega⟩
   unfold untar
   rw [hk.1, untarNodes]
-  show (ArchDec.next ⟨⟨flatArchive root cs items, 0⟩, [dot], none, 0⟩ >>= _) = _
+  show (ArchDec.next ⟨⟨flatArchive root cs items, 0⟩, [dot], none, 0, 0, false⟩ >>= _) = _
   rw [h]
   simp only [Res.ok_bind]
   rw [untarNodes_ready root items hit cs hcs k s' _ hk.2 hr]
